@@ -146,6 +146,40 @@ def run(ctx):
                     outs.append(hplapi.outcome(lambda: o[1].but(scope=sc[1])))
         return outs
 
+    def realise_but_deep(p):
+        """from a valid, already checked neighbour with the same events but reference-free predicates: every simple
+        event gets its predicate through event.but(predicate=...), the copies travel up through but() of the
+        scope, the pattern and the property (disjunctions are built afresh)"""
+        pos = A.prop_positions(p)
+
+        def strip(ev):
+            if ev[0] == 'disj':
+                return ('disj', tuple(strip(k) for k in ev[1]))
+            return ('ev', ev[1], ev[2], ref_pred(None, 'top'))
+        n = gen.assemble(p[2][1], p[3][1], {q: strip(ev) for q, ev in pos.items()}, p[3][4])
+        if SCO.verdict(n)[0] != SCO.ACCEPT:
+            return []
+        o = hplapi.outcome(hplapi.build_property, n)
+        if o[0] != 'ok':
+            return []
+        hp = o[1]
+
+        def derive():
+            scope, pattern = hp.scope, hp.pattern
+            for q, ev in pos.items():
+                if ev[0] == 'disj':
+                    new = hplapi.build_event(ev)
+                else:
+                    old = {'activator': scope.activator, 'terminator': scope.terminator, 'trigger': pattern.trigger,
+                           'behaviour': pattern.behaviour}[q]
+                    new = old.but(predicate=hplapi.build_predicate(ev[3]))
+                if q in ('activator', 'terminator'):
+                    scope = scope.but(**{q: new})
+                else:
+                    pattern = pattern.but(**{q: new})
+            return hp.but(scope=scope, pattern=pattern)
+        return [hplapi.outcome(derive)]
+
     def judge(p, sig, nontrivial, tags=()):
         v, reason = SCO.verdict(p)
         feats = {'api:property', 'shape:' + p[2][1], 'shape:' + p[3][1]} | set(tags)
@@ -159,6 +193,8 @@ def run(ctx):
         results = [('text', realise_text(p)), ('api', realise_api(p))]
         for o in realise_but(p):
             results.append(('but', o))
+        for o in realise_but_deep(p):
+            results.append(('but-deep', o))
         for how, o in results:
             got = hplapi.exc_class(o)
             ctx.evaluation(f'{sig}|{how}', nontrivial)
